@@ -64,3 +64,14 @@ Proof.
   split; [exact F|]. assert (fraction r0 maxp * fraction r0 maxp <= 1) by nra.
   assert (0 <= scale * scale) by nra. nra.
 Qed.
+
+(* the only branch of random_value(Stokes) is the sanity test "invariant < -1e-10 -> throw":
+   for 0 <= u <= 1 and 0 <= max <= 1 it is never taken *)
+Lemma pc_rv_stokes scale maxp r0 r1 r2 r3 : 0 <= r0 <= 1 -> 0 <= maxp <= 1 ->
+  rval r1 scale * rval r1 scale + rval r2 scale * rval r2 scale + rval r3 scale * rval r3 scale <> 0 ->
+  rv_stokes_pc (OO:=ROps) scale maxp r0 r1 r2 r3.
+Proof.
+  intros Hr Hm H. destruct (tie_rv_stokes scale maxp r0 r1 r2 r3 H) as [_ [_ C]].
+  destruct (stokes_invariant_nonneg scale maxp r0 Hr Hm) as [_ I].
+  revert C. autounfold with gen; ops_R; cbn [nth]. intros C Hlt. rewrite C in Hlt. lra.
+Qed.
